@@ -44,6 +44,7 @@ class Gen:
         self.modname = modname
         self.funcs: list[dict] = []
         self.pure = True  # no node outside the modelled meaning (other/…)
+        self.exact = False  # rendering mode: wrap every numeric literal in _X(...) (exact twin for the oracle)
         self.feat: set[str] = set()
 
     # -- expressions ---------------------------------------------------------------------
@@ -70,7 +71,7 @@ class Gen:
         if x < 0.72:
             self.feat.add("attr-const")
             k = r.choice(sorted(ATTR_CONSTS))
-            return ("attr", ATTR_CONSTS[k], f"{self.modname['c']}.{k}")
+            return ("attr", ATTR_CONSTS[k], k)
         if x < 0.724 and not divisor:
             self.feat.add("unbound-name")
             return ("var", r.choice([30, 31]))  # never bound: KeyError in the translator, NameError in Python
@@ -229,7 +230,10 @@ class Gen:
             if r.random() < 0.93:
                 out.append(("return", self.expr(sc, 2)))
             else:
+                # falling off the end returns None, which CPython lets flow through == / != in a caller;
+                # the model calls that "no value": such programs are compared one-directionally
                 self.feat.add("no-final-return")
+                self.pure = False
         return out
 
     def _bind(self, sc: dict, t: int) -> None:
@@ -309,12 +313,15 @@ class Gen:
     def src(self, e: tuple, sc: dict | None = None, mod: str | None = None) -> str:
         m = mod if mod is not None else (sc["mod"] if sc else "a")
         k = e[0]
+        x = "x" if self.exact else ""
         if k == "num":
+            if self.exact:
+                return f"_X({float(e[1])!r})" if (e[2] or e[1].denominator != 1) else f"_X({e[1].numerator})"
             return num_src(e[1], e[2])
         if k == "var":
             return vn(e[1])
         if k == "attr":
-            return e[2]
+            return f"{self.modname['c']}{x}.{e[2]}"
         if k == "un":
             return f"({UN_PY[e[1]]}{self.src(e[2], mod=m)})"
         if k == "bin":
@@ -329,7 +336,7 @@ class Gen:
             if g["mod"] == m or g.get("from_imported"):
                 callee = g["name"]
             else:
-                callee = f"{self.modname[g['mod']]}.{g['name']}"
+                callee = f"{self.modname[g['mod']]}{x}.{g['name']}"
             return f"{callee}({', '.join(args)})"
         if k == "other":
             return e[1]
